@@ -845,6 +845,10 @@ def invoke(rec, args, kw, spelling):
         return getattr(numpy, rec.reduce).reduce(args[0], **kw)
     if spelling == "accumulate":
         return getattr(numpy, rec.accumulate).accumulate(args[0], **kw)
+    if spelling == "reduce-default":  # axis omitted: the ufunc methods default to axis=0
+        return getattr(numpy, rec.reduce).reduce(args[0], **{k: v for k, v in kw.items() if k != "axis"})
+    if spelling == "accumulate-default":
+        return getattr(numpy, rec.accumulate).accumulate(args[0], **{k: v for k, v in kw.items() if k != "axis"})
     raise ValueError(spelling)
 
 
@@ -861,11 +865,16 @@ def spellings_of(rec, args, kw):
     if rec.operator and not kw and (first_poly or (len(args) > 1 and isinstance(args[1], numpoly.ndpoly))):
         out.append("operator")
     # ufunc.reduce/accumulate default to axis=0 while sum/cumsum default to axis=None by
-    # definition, so these spellings are only comparable with an explicit integer axis
-    if rec.reduce and first_poly and set(kw) <= {"axis", "keepdims", "dtype"} and isinstance(kw.get("axis"), int):
+    # definition, so these spellings need the axis spelled out (an int, a tuple or an explicit None for
+    # reduce; an int for accumulate), and the axis-omitted ufunc spelling corresponds to axis=0
+    if rec.reduce and first_poly and set(kw) <= {"axis", "keepdims", "dtype"} and "axis" in kw:
         out.append("reduce")
+        if isinstance(kw["axis"], int) and not isinstance(kw["axis"], bool) and kw["axis"] == 0:
+            out.append("reduce-default")
     if rec.accumulate and first_poly and set(kw) <= {"axis"} and isinstance(kw.get("axis"), int):
         out.append("accumulate")
+        if kw["axis"] == 0:
+            out.append("accumulate-default")
     return out
 
 
